@@ -310,6 +310,88 @@ theorem sessionClaimsCheck_total (env : TransM.Env) (c : TransM.JWTSessionCodec)
       cases hi : env.verifyIssuer_JWTSessionClaims claims c.Issuer true <;>
       cases hm : claims.SAMLSession <;> simp [ha, hi, hm]
 
+/-- the cookie `CreateSession` sets -/
+def sessionCookieEvent (c : TransM.CookieSessionProvider) (domain value path : String) (secure : Bool) : Event :=
+  ⟨"http.SetCookie", ["Name=" ++ c.Name, "Domain=" ++ domain, "Value=" ++ value, "HttpOnly=" ++ toString c.HTTPOnly,
+    "Secure=" ++ toString secure, "Path=" ++ path]⟩
+
+theorem createSession_tail (env : TransM.Env) (c cc c' : TransM.CookieSessionProvider) (rq : HTTPRequest) (a : Option TransM.Assertion)
+    (dom' : String) (e : GoError) (tr : List Event)
+    (h : (do
+      let r1 ← c.Codec.New a
+      if r1.snd.isSome = true then Outcome.ok (cc, r1.snd, ([] : List Event))
+      else do
+        let r2 ← c.Codec.Encode r1.fst
+        if r2.snd.isSome = true then Outcome.ok (cc, r2.snd, ([] : List Event))
+        else
+          if c.Path = "" then do
+            let sec ← (if c.Secure = true then (Outcome.ok true : Outcome Bool) else Outcome.ok (env.requestScheme rq == "https"))
+            Outcome.ok (cc, none, [sessionCookieEvent c dom' r2.fst "/" sec])
+          else do
+            let sec ← (if c.Secure = true then (Outcome.ok true : Outcome Bool) else Outcome.ok (env.requestScheme rq == "https"))
+            Outcome.ok (cc, none, [sessionCookieEvent c dom' r2.fst c.Path sec])) = .ok (c', (e, tr))) :
+    (e ≠ none ∧ tr = []) ∨
+    (e = none ∧ ∃ sess value, c.Codec.New a = .ok (sess, none) ∧ c.Codec.Encode sess = .ok (value, none) ∧
+      ∃ path, tr = [sessionCookieEvent c dom' value path (c.Secure || env.requestScheme rq == "https")] ∧
+        (path = c.Path ∨ (c.Path = "" ∧ path = "/"))) := by
+  cases hn : c.Codec.New a with
+  | err x => simp [hn] at h
+  | panic x => simp [hn] at h
+  | ok nres =>
+    obtain ⟨sess, ne⟩ := nres
+    simp only [hn, Outcome.ok_bind'] at h
+    cases ne with
+    | some x => simp at h; exact Or.inl ⟨by rw [← h.2.1]; simp, h.2.2⟩
+    | none =>
+      simp only [Option.isSome_none, Bool.false_eq_true, if_false] at h
+      cases hen : c.Codec.Encode sess with
+      | err x => simp [hen] at h
+      | panic x => simp [hen] at h
+      | ok eres =>
+        obtain ⟨value, ee⟩ := eres
+        simp only [hen, Outcome.ok_bind'] at h
+        cases ee with
+        | some x => simp at h; exact Or.inl ⟨by rw [← h.2.1]; simp, h.2.2⟩
+        | none =>
+          simp only [Option.isSome_none, Bool.false_eq_true, if_false] at h
+          refine Or.inr ?_
+          by_cases hp : c.Path = ""
+          · cases hsc : c.Secure <;> simp [hp, hsc] at h <;>
+              exact ⟨h.2.1.symm, sess, value, rfl, hen, "/", by rw [← h.2.2]; simp [hsc], Or.inr ⟨hp, rfl⟩⟩
+          · cases hsc : c.Secure <;> simp [hp, hsc] at h <;>
+              exact ⟨h.2.1.symm, sess, value, rfl, hen, c.Path, by rw [← h.2.2]; simp [hsc], Or.inl rfl⟩
+
+/-- C17 (`samlsp/session_cookie.go` `CookieSessionProvider.CreateSession`; the codec, `net.SplitHostPort` and the request's scheme
+    are arbitrary functions): the only thing written to the response is one `Set-Cookie`, after the codec minted and encoded the
+    session without error; the cookie carries the provider's name, the encoded session as its value, `HttpOnly` exactly as
+    configured and `Secure` when configured *or* when the request came over https; any codec error writes nothing -/
+theorem cookieCreateSession_cookie (env : TransM.Env) (c c' : TransM.CookieSessionProvider) (w : ResponseWriter) (rq : HTTPRequest)
+    (a : Option TransM.Assertion) (e : GoError) (tr : List Event)
+    (h : TransM.cookieCreateSession env c w (some rq) a = .ok (c', (e, tr))) :
+    (e ≠ none ∧ tr = []) ∨
+    (e = none ∧ ∃ sess value, c.Codec.New a = .ok (sess, none) ∧ c.Codec.Encode sess = .ok (value, none) ∧
+      ∃ domain path, tr = [sessionCookieEvent c domain value path (c.Secure || env.requestScheme rq == "https")] ∧
+        (path = c.Path ∨ (c.Path = "" ∧ path = "/"))) := by
+  unfold TransM.cookieCreateSession at h
+  simp only [deref_some, Outcome.ok_bind', Outcome.pure_eq_ok] at h
+  cases hs : env.splitHostPort c.Domain with
+  | err x => simp [hs] at h
+  | panic x => simp [hs] at h
+  | ok sres =>
+    obtain ⟨dom, port, se⟩ := sres
+    simp only [hs, Outcome.ok_bind'] at h
+    cases se with
+    | none =>
+      simp only [Option.isNone_none, if_true] at h
+      rcases createSession_tail env c { c with Domain := dom } c' rq a dom e tr (by simpa [sessionCookieEvent] using h) with h1 | ⟨h1, sess, value, hn, he, path, ht, hp⟩
+      · exact Or.inl h1
+      · exact Or.inr ⟨h1, sess, value, hn, he, dom, path, ht, hp⟩
+    | some x =>
+      simp only [Option.isNone_some, Bool.false_eq_true, if_false] at h
+      rcases createSession_tail env c c c' rq a c.Domain e tr (by simpa [sessionCookieEvent] using h) with h1 | ⟨h1, sess, value, hn, he, path, ht, hp⟩
+      · exact Or.inl h1
+      · exact Or.inr ⟨h1, sess, value, hn, he, c.Domain, path, ht, hp⟩
+
 theorem TransI_no_failures : TransI.transFailures = [] := by decide
 
 /-! non-vacuity -/
